@@ -36,7 +36,11 @@ def records(rnd, thorough):
                 if P == 1:
                     continue           # a one-character string is a scalar for interpret(), not a 1-signal pattern
 
-                def f(strs=strs):
+                def f(strs=strs, rep=rep):
+                    if rep == 0:
+                        # history: an earlier result of the same conversion was modified in place by its owner
+                        first = logic.mvarray(*strs)
+                        np.bitwise_xor(first, 3, out=first)
                     a = logic.mvarray(*strs)
                     return dict(got=np.asarray(a).reshape(-1).astype(int).tolist(), gshape=list(np.asarray(a).shape))
                 rec('mvarray', f, strs=[list(s) for s in strs])
@@ -88,6 +92,18 @@ def records(rnd, thorough):
         by = np.array([rnd.randint(0, 255) for _ in range(3 * B)], dtype=np.uint8).reshape(3, B)
         rec('bp_to_mv', lambda by=by: (lambda m: dict(got=m.reshape(-1).astype(int).tolist(), gshape=list(m.shape)))(logic.bp_to_mv(by)),
             vals=by.reshape(-1).astype(int).tolist(), A=1, S=1, B=B, eshape=[8 * B])
+    # large arrays, judged on sampled bytes (the value of a byte depends on its eight patterns only)
+    for (S, P) in ((1000, 5000), (3 * 250, 3001)) if thorough else ((700, 3100),):
+        big = np.random.RandomState(rnd.randrange(1 << 30)).randint(0, 8, size=(S, P)).astype(np.uint8)
+        bp = logic.mv_to_bp(big)
+        back = logic.bp_to_mv(bp)
+        for _ in range(40):
+            srow, y = rnd.randrange(S), rnd.randrange((P + 7) // 8)
+            lo, hi = 8 * y, min(P, 8 * y + 8)
+            rec('mv_to_bp', lambda srow=srow, y=y: dict(got=bp[srow, :, y].reshape(-1).astype(int).tolist(), gshape=[1, 3, 1]),
+                vals=big[srow, lo:hi].astype(int).tolist(), A=1, S=1, P=hi - lo, eshape=[1, 3, 1])
+            rec('mv_str', lambda srow=srow, lo=lo, hi=hi: dict(got=[[('0X-1PRFN'[int(v)])] for v in back[srow, lo:hi]]),
+                vals=big[srow, lo:hi].astype(int).tolist(), S=1, P=hi - lo)
     # bparray = mv_to_bp(mvarray(...))
     for k in (1, 3):
         for P in (3, 8, 9):
